@@ -261,7 +261,8 @@ def check(run: Run) -> None:
     # ---------------- R7: which keyword starts the function is decided by the kind of callable handed in
     _check_kind(run, m, ctx, ps, srcp)
     # ---------------- R8: the text handed to the parser on the def path is the callable's source minus blanks
-    _check_dedent(run, m, ctx, ps, gs)
+    ps_own = ps.__dict__.get("_unrolled_from", ps)  # the helper is found by the call that wraps getsource(): in the function as written
+    _check_dedent(run, m, ctx, ps_own, [c for c in calls_in(ps_own) if ast.unparse(c.func) == "inspect.getsource"])
     # name match: returns (previous NAME token, this token) when t.string in identifier
     for s, n in ffa.returns():
         if _returns_found(s):
